@@ -78,7 +78,13 @@ def run_case(case, g, tier, res):
         p = rec.p
         if p is None:  # numpy: no p = uniform
             p = [1.0 / len(rec.items)] * len(rec.items)
-        c.prove(len(p) == k and [int(x) for x in rec.items] == list(range(k)), "pick is over all declared components")
+        def build0(mv, c):
+            fv = [float(c.eval_in(mv, f)) for f in fr]
+            mv_ = [float(c.eval_in(mv, m)) for m in mbar]
+            return (f"C14:pick-not-over-all-components@System.{case['entry']}", f"the component pick is not over all {k} declared components for declared mass fractions {fv}",
+                    {"kind": "share", "entry": case["entry"], "fractions": fv, "mbar": mv_, "p": [], "k": k, "what": "components"})
+
+        c.prove(len(p) == k and [int(x) for x in rec.items] == list(range(k)), "pick is over all declared components", build0)
         denom = sum((p[j] * mbar[j] for j in range(k)), 0.0)
         sumf = sum(fr, 0.0)
         # is it the known wrong law p_i = f_i / sum f ?
@@ -158,8 +164,11 @@ def replay(rp, gb):
     shares = [100 * x / sum(got) for x in got]
     # the law the real code handed to the generator, and the long-run share it implies for these components
     pk = [q for q in rng.p if q is not None and len(q) == k]
-    if not pk:
+    if not pk and rp.get("what") != "components":
         return False, "no component pick observed"
+    if rp.get("what") == "components":
+        allp = [q for q in rng.p if q is not None]
+        return bool(allp) and len(allp[0]) != k, f"system {text}: pick vector {allp[:1]} for {k} declared components; sampled ensemble shares {[round(s, 1) for s in shares]}"
     p0 = pk[0]
     den = sum(p0[j] * masses[j] for j in range(k))
     implied = [100 * p0[j] * masses[j] / den for j in range(k)]
